@@ -102,8 +102,15 @@ func checkC05(r *Run) {
 						// is this the phi compared with MaxValidators?
 						if refs := b.X.Referrers(); refs != nil {
 							for _, u := range *refs {
-								if cmp, ok := u.(*ssa.BinOp); ok && cmp.Op == token.LSS && strings.Contains(P.TermAt(cmp.Y, cmp).String(), "MaxValidators") {
-									inc = in
+								// count < max, count >= max, max > count, max <= count: any order test of the counter against the bound
+								if cmp, ok := u.(*ssa.BinOp); ok && (cmp.Op == token.LSS || cmp.Op == token.GEQ || cmp.Op == token.GTR || cmp.Op == token.LEQ) {
+									other := cmp.Y
+									if other == ssa.Value(b.X) {
+										other = cmp.X
+									}
+									if strings.Contains(P.TermAt(other, cmp).String(), "MaxValidators") {
+										inc = in
+									}
 								}
 							}
 						}
